@@ -60,10 +60,28 @@ class Gen:
                 out.append(("ext", url, self.words(1, 2) if rnd.random() < 0.7 else None))
                 out.append(self.word())
             elif allow_ref and self.with_refs and depth == 0:
-                out.append(("ref", self.inline(1, False, True, 0, 3)))
+                out.append(("ref", self.links_only() if (self.with_links and rnd.random() < 0.15)
+                            else self.inline(1, False, True, 0, 3)))
                 out.append(self.word())
             else:
                 out.append(self.word())
+        return out
+
+    def links_only(self):
+        """inline content made of label-less internal links only (their targets are the visible text)"""
+        out = []
+        for _ in range(self.rnd.randint(1, 2)):
+            base = " ".join(w[1] for w in self.words(1, 2))
+            out.append(("link", base.capitalize() if self.rnd.random() < 0.5 else base, None))
+        return out
+
+    def long_inline(self):
+        """one long run of words with a few styled stretches (a cell of 1000-2000 characters)"""
+        out = []
+        for _ in range(self.rnd.randint(8, 16)):
+            out.extend(self.words(15, 25))
+            out.append(("style", self.rnd.choice(("b", "i")), "tag", self.words(1, 3)))
+        out.append(self.word())
         return out
 
     def link(self, enclosing=()):
@@ -96,7 +114,8 @@ class Gen:
             sub = None
             if depth < 4 and rnd.random() < 0.3 and self.budget_left():
                 sub = self.wlist(depth + 1)
-            items.append((self.inline(0, allow_ref=False, hi=3), sub))
+            items.append((self.links_only() if (self.with_links and rnd.random() < 0.12)
+                          else self.inline(0, allow_ref=False, hi=3), sub))
         return ("list", kind, items, "html" if (depth == 1 and rnd.random() < 0.25) else "wiki")
 
     def dlist(self):
@@ -125,6 +144,9 @@ class Gen:
                     content = ("inline", self.inline(0, allow_ref=rnd.random() < 0.2, hi=3))
                 cells.append((header and r == 0, content))
             rows.append(cells)
+        if not nested and rnd.random() < 0.06 and self.maxwords >= 150:
+            r0, c0 = rnd.randrange(nrows), rnd.randrange(ncols)
+            rows[r0][c0] = (rows[r0][c0][0], ("inline", self.long_inline()))
         caption = self.inline(0, False, False, 0, 2) if rnd.random() < 0.3 else None
         how = "html" if (rnd.random() < 0.25 and not nested) else "wiki"
         if how == "html" and any(c[0] == "blocks" and c[1][0][0] == "table" for row in rows for _, c in row):
@@ -160,7 +182,10 @@ class Gen:
 
     def section(self, level, depth=0):
         title = self.inline(0, False, False, 0, 2)
-        body = self.blocks(0, 3, need_text=True)
+        if self.with_links and self.rnd.random() < 0.08:
+            body = [("list", "ul", [(self.links_only(), None) for _ in range(self.rnd.randint(1, 4))], "wiki")]
+        else:
+            body = self.blocks(0, 3, need_text=True)
         subs = []
         if level < 5 and depth < 2:
             sublevel = min(5, level + self.rnd.choice((1, 1, 2)))
